@@ -13,11 +13,14 @@ CHECKS = {
   text="Proof: C01_cauchy, C01_xor, C01_default quantify over all (d,p) with d+p<=256 and all survivor sets (no enumeration): "
        "a degree<d polynomial with d roots is zero; the default generator is proved equal to the Lagrange matrix through the "
        "proved Gaussian elimination. Jerasure and Leopard GF(2^8) are decided per configuration by running the proved checkers "
-       "(C01_certGC, C01_leo8_cert: certificate = true -> MDS; Leopard's field is GF256 under the Cantor map, C17leo_toGF) in "
+       "(C01_certGC, C01_leo8_cert, C01_leo16_cert: certificate = true -> MDS; Leopard's fields are GF256 / GF65536 under the "
+       "Cantor map, C17leo_toGF / C17gf16_toGF, so an MDS image means any d symbols computed in Leopard's own arithmetic "
+       "determine the message, C01_leo8_any_d / C01_leo16_any_d) in "
        "the compiled driver. Tie: generators extracted from the real encoder (Encode of unit vectors) must equal the model's.",
   note=TB + " Modelled not verified: that Encode applies this generator column-wise (C03). Jerasure closed form not proved "
        "in general (certificate per explored configuration; all 21,845 Leopard GF8 pairs in the thorough tier). Leopard GF16: "
-       "equality with the Lagrange closed form over the proved field GF65536 (C17gf16_toGF) and C05's reconstructions.",
+       "certificate per explored configuration up to 400,000 generator entries, above that equality with the Lagrange closed "
+       "form on sampled columns and C05's reconstructions.",
   design="4/C01"),
  "C02": dict(
   technique="Lean 4 theorem: the modelled reconstruct algorithm equals its specification for every MDS generator (via proved Gaussian elimination)",
